@@ -77,6 +77,9 @@ def case_st(draw):
                 # rank-deficient projections ("any overlaps, projections"): a trial orbital repeated, or the projection
                 # onto one band removed at one k-point
                 deficient=draw(st.sampled_from(["no", "no", "duplicate", "zero-row"])),
+                # explicit `frozen_states` (dict per k-point / list for all k) naming bands that the frozen window freezes
+                # anyway: redundant by construction, so the expected masks do not change; and the gauge-mixing option
+                fstates=draw(st.sampled_from(["no", "no", "dict", "list"])), mixu=draw(st.sampled_from([1, 1, 0.5, 0.8])),
                 nps=draw(st.integers(0, 2 ** 32 - 1)))
 
 
@@ -262,6 +265,16 @@ def check(case):
               savechk=False, print_progress_every=7)
     if case["init"] == "random":
         kw["num_wann"] = NW
+    if case.get("mixu", 1) != 1:
+        kw["mix_ratio_u"] = case["mixu"]
+    if case.get("fstates") == "dict":
+        fs = {int(ik): [int(np.where(frozen[ik])[0][0])] for ik in range(NK) if frozen[ik].any() and (ik % 2 == 0)}
+        if fs:
+            kw["frozen_states"] = fs
+    elif case.get("fstates") == "list":
+        everywhere = [int(b) for b in range(NB) if frozen[:, b].all()]
+        if everywhere:
+            kw["frozen_states"] = everywhere[:1]
     with numpy_seed(case["nps"]):
         ret = wannierise(wd, **kw)
     V = wd.chk.v_matrix
